@@ -91,7 +91,7 @@ static std::vector<Op> genHistory(vf::Rng& r, const Program& p, const std::strin
     unsigned x = (unsigned)r.below(100);
     if (x < 38) { Op o; o.kind = Op::Set; o.key = r.pick(inputs); o.val = std::to_string(r.below(4)); if (profile == "c03" && r.chance(1, 5)) { static const char* odd[] = {"", "\x00\x01", "\xff\xfe", "1.0", "01"}; unsigned w = (unsigned)r.below(5); o.val = w == 1 ? std::string("\x00\x01", 2) : std::string(odd[w]); } h.push_back(o); }
     else if (x < 43 && !extouts.empty()) { Op o; o.kind = r.chance(1, 3) ? Op::RemoveOut : Op::Tamper; o.key = r.pick(extouts); o.val = "tampered" + std::to_string(i); h.push_back(o); }
-    else if (x < 88) { Op b = pickBuild(); if ((profile == "c03" || profile == "c01") && r.chance(1, 10)) b.cancelStep = 1 + (long)r.below(40); h.push_back(b); }
+    else if (x < 88) { Op b = pickBuild(); if ((profile == "c03" || profile == "c01" || profile == "c02") && r.chance(1, 10)) b.cancelStep = 1 + (long)r.below(40); h.push_back(b); }
     else { Op o; o.kind = Op::Restart; if (sigs && r.chance(1, 3)) { size_t nb = 1 + r.below(2); for (size_t q = 0; q < nb; ++q) o.bump.push_back(r.pick(computed)); } h.push_back(o); }
   }
   if (h.back().kind != Op::Build) h.push_back(pickBuild());
